@@ -166,6 +166,22 @@ def run_case(ck, desc):
     h0 = H(14.7)
     if h0 != 0:
         ck.violation("zero-at-reference", {"Hussainy(p_std)": h0}, desc)
+    # other references, the textbook zero base pressure among them (as int, float and numpy scalar):
+    # zero AT the reference, positive above it, and the integral the harness computes itself
+    from scipy.integrate import quad
+
+    from bluebonnet.fluids.gas import viscosity_Sutton, z_factor_DAK
+
+    integrand = lambda p: 2.0 * p / (float(viscosity_Sutton(T, p, Tpc, ppc, sg)) * float(z_factor_DAK(T, p, Tpc, ppc)))  # noqa: E731
+    for ref in (0, 0.0, np.float64(0.0), 5.0, 50.0):
+        at_ref = H(float(ref) if float(ref) > 0 else 1e-300, ref) if float(ref) == 0 else H(float(ref), ref)
+        up = H(200.0, ref)
+        own, _ = quad(integrand, max(float(ref), 1e-9), 200.0, epsabs=0, epsrel=1e-10, limit=200)
+        if not (abs(at_ref) <= 1e-9 * abs(own)):
+            ck.violation("zero-at-reference", {"reference": repr(ref), "value_at_reference": at_ref}, desc)
+        if not ck.margin("Hussainy(200 psia; other references) = own quadrature", abs(up / own - 1), 1e-6):
+            ck.violation("quadrature-from-the-reference-given", {"reference": repr(ref), "library": up, "own_quadrature": own}, desc)
+        ck.count("hussainy_other_references")
     if np.any(np.diff(M) <= 0):
         ck.violation("strictly-increasing", {"route": "table", "min_step": float(np.min(np.diff(M)))}, desc)
     # quadrature vs table on differences between node pairs
